@@ -5,7 +5,7 @@ VARIABLES c, emitted
 GInit == /\ emitted = FALSE /\ mine = [cur |-> <<0>>, cfg |-> <<0>>] /\ theirs = <<>> /\ cache = <<>> /\ last = [v |-> NoVer, want |-> NoVer] /\ n = 0   \* (the base module's variables are unused here)
          /\ \/ \E S \in SUBSET Universe \ {{}} : \E m \in Orders(S), t \in Adverts :
                  c = [kind |-> "helper", mine |-> m, theirs |-> t, a |-> {}, b |-> {}, rep |-> 3, expect |-> Negotiate(m, t)]
-            \/ \E a, b \in SUBSET {0, 1} \ {{}} : \E rep \in 1..3 :
+            \/ \E a, b \in SUBSET {0, 1, 2} \ {{}} : \E rep \in 1..3 :
                  c = [kind |-> "transfer", mine |-> <<>>, theirs |-> Adv({}), a |-> a, b |-> b, rep |-> rep,
                       expect |-> Negotiate(CHOOSE s \in Orders(a) : TRUE, Adv(b))]
 GNext == ~emitted /\ emitted' = TRUE /\ UNCHANGED <<c, vars>>
